@@ -6,7 +6,7 @@ for d in seeded/*/; do
   ID=$(basename $d); [ -f $d/meta.json ] || continue
   P=$(python3 -c "import json;print(json.load(open('$d/meta.json'))['property'])")
   EXTRA=""
-  case $ID in C03d) EXTRA="C06";; C07a) EXTRA="C04";; C04c) EXTRA="C06";; C06h) EXTRA="C04";; C07e) EXTRA="C13";; C07g) EXTRA="C12";; C11i) EXTRA="C06";; esac
+  case $ID in C03d) EXTRA="C06";; C07a) EXTRA="C04";; C04c) EXTRA="C06";; C06h) EXTRA="C04";; C07e) EXTRA="C13";; C07g) EXTRA="C12";; C11i) EXTRA="C06";; C07j) EXTRA="C14";; C11k) EXTRA="C10";; esac
   tools/seeded_check.sh $ID $P $EXTRA >> $OUT 2>&1
 done
 echo "done" >> $OUT
